@@ -265,6 +265,14 @@ Theorem C13_filter_expr_partial : forall f, terminated (entries (dropN 2 f)) ->
 Proof. exact filter_expr_equiv. Qed.
 Print Assumptions C13_filter_expr_partial.
 
+(* string level, the three statements above combined: whatever string the renderer returns
+   reads back as a tree that evaluates like the filter bytes *)
+Theorem C13_filter_string_partial : forall f s, pfid2_filter_to_str f = Ok s ->
+  terminated (entries (dropN 2 f)) ->
+  exists e, parse_expr s = Some e /\ forall hw, eval_expr hw e = eval_filter_bytes hw f.
+Proof. exact filter_string_equiv. Qed.
+Print Assumptions C13_filter_string_partial.
+
 (* excluded by [terminated]: entries of an unterminated last group are not rendered *)
 Example C13_filter_expr_refuted :
   exists f hw, pfid2_filter_to_str f = Ok [] /\
@@ -274,7 +282,8 @@ Proof.
 Qed.
 Print Assumptions C13_filter_expr_refuted.
 
-(* ---- text level (partial: data lines only) ------------------------------------------- *)
+(* ---- text level (partial: data lines and data groups only; instruction lines are tied by
+   the correspondence) ------------------------------------------------------------------- *)
 
 (* a data line written as ':' + hex of index(2) type(1) taglen(1) tag extra, with CRLF or LF,
    parses to that line, and rawdata is all its bytes *)
@@ -285,8 +294,16 @@ Theorem C13_text_dataline_partial : forall ndx ty tag extra eol,
 Proof. exact parse_rendered_line. Qed.
 Print Assumptions C13_text_dataline_partial.
 
-(* non-vacuity: a two-section file (SM4200 blob over a page crossing is too big for an
-   example; a small blob and a main firmware) imports with the expected components *)
+(* a data group written as start marker (type FE), data lines, end marker (type FF), each line
+   ':' + hex + CRLF, parses to one "load" token holding exactly those lines in order *)
+Theorem C13_text_group_partial : forall ls, ls <> [] -> Forall text_ok ls ->
+  parse_text (render_group ls) = Ok [Load ls].
+Proof. exact parse_rendered_group. Qed.
+Print Assumptions C13_text_group_partial.
+
+(* non-vacuity: a two-section token stream (a small SM4200 blob closed by #>REBOOT and a
+   main firmware) satisfies the hypotheses used above and imports with the expected
+   components, sorted by type *)
 Example C13_nonvacuous :
   let l1 := mkLine 0x35 0 [x05; x00; x00; x41; x42; x43] [x00; x00; x35; x06; x05; x00; x00; x41; x42; x43] in
   let l2 := mkLine 0x35 1 [x04; x00; x03; x44; x45] [x00; x01; x35; x05; x04; x00; x03; x44; x45] in
